@@ -35,7 +35,7 @@ COMPONENTS = {
     "real": ["eolib.protocol.protocol_enum_meta.ProtocolEnumMeta", "generated enum modules (real generator run per tree)", "enum.IntEnum of the interpreter"],
     "stub_or_harness": ["construction-history generator", "registry snapshot oracle"],
 }
-PROBES = ["keyword_call_form", "exhaustive_switch_carrier", "warnings_as_errors", "in_flow_read_then_write", "declared", "unknown", "unknown_repeated", "instance_passed_back", "negative", "huge", "none_member",
+PROBES = ["bool_or_int_subclass_argument", "declared_negative_ordinal", "keyword_call_form", "exhaustive_switch_carrier", "warnings_as_errors", "in_flow_read_then_write", "declared", "unknown", "unknown_repeated", "instance_passed_back", "negative", "huge", "none_member",
           "boundary_252_253", "unknown_then_declared_same_class"]
 FAULT_KINDS = ["unknown_ordinal"]
 SHRINK_KEYS = ["ops"]
@@ -129,6 +129,8 @@ def generate(streams, tier):
     rng = streams.get("spec")
     tree = add_carriers(specgen.gen_tree(rng, "small"))
     prng = streams.get("plan")
+    if prng.random() < 0.5:
+        tree = add_odd_ordinals(tree, prng)
     ops = []
     for _ in range(prng.randrange(1, 201)):
         r = prng.random()
@@ -148,6 +150,37 @@ def generate(streams, tier):
                    [prng.randrange(64), "carrier", [prng.choice(["d", "d", "n", "s", "r"]) for _ in range(prng.randrange(1, 8))],
                     prng.randrange(1 << 30)])
     return {"tree": tree, "ops": ops, "warnings_as_errors": prng.random() < 0.3}
+
+
+class _Tile(int):
+    """An application's int subclass (its text form is not the integer's)."""
+
+    def __str__(self):
+        return f"tile#{int(self)}"
+
+    __repr__ = __str__
+
+    def __format__(self, spec):
+        return f"tile#{int(self)}"
+
+
+ODD_SPELLINGS = ["-1", "-2", "-300", "+7", "+0", "0012", "007", "-0", "64009", "253", "-253", "+252"]
+
+
+def add_odd_ordinals(tree, rng):
+    """An enum whose declared ordinals are spelled in the less common decimal notations (sign, leading zeros) or are
+    negative; it has no carrier structure (negative ordinals cannot be put on the wire)."""
+    picked, seen = [], set()
+    for text in rng.sample(ODD_SPELLINGS, rng.randrange(2, 7)):
+        if int(text) not in seen:
+            seen.add(int(text))
+            picked.append(text)
+    rel = rng.choice(sorted(tree))
+    body = "".join(f'        <value name="Odd{i}">{t}</value>\n' for i, t in enumerate(picked))
+    enum = f'    <enum name="OddOrdinals" type="{rng.choice(["char", "short", "three"])}">\n{body}    </enum>\n'
+    out = dict(tree)
+    out[rel] = tree[rel].replace("</protocol>", enum + "</protocol>")
+    return out
 
 
 def add_carriers(tree):
@@ -280,12 +313,17 @@ def _execute(plan, env):
         res.evaluations += 1
         vc = "instance" if arg is not None else _value_class(n, declared)
         res.keys.add(f"{shape}|{vc}|{int(n in seen_unknown[ci] or n in firsts[ci])}")
+        given = arg if arg is not None else n
+        if arg is None and step % 11 == 5:
+            # the same integer in another dress: a bool, or an int subclass with a text form of its own
+            given = bool(n) if n in (0, 1) else _Tile(n)
+            res.count("probe.bool_or_int_subclass_argument")
         try:
             if step % 7 == 3:
-                x = cls(value=arg if arg is not None else n)      # the same construction, argument passed by keyword
+                x = cls(value=given)      # the same construction, argument passed by keyword
                 res.count("probe.keyword_call_form")
             else:
-                x = cls(arg if arg is not None else n)
+                x = cls(given)
         except BaseException as e:  # noqa
             fail("construction-raised", f"{cls.__name__}({n}) raised {type(e).__name__}: {e}", step)
             break
@@ -298,6 +336,8 @@ def _execute(plan, env):
             res.count("probe.boundary_252_253")
         if n in declared:
             res.count("probe.declared")
+            if n < 0:
+                res.count("probe.declared_negative_ordinal")
             if declared[n] == "None_":
                 res.count("probe.none_member")
             if seen_unknown[ci]:
